@@ -574,12 +574,37 @@ func check(c Case, o *vf.Obs) error {
 	}
 	seen := map[string]bool{}
 	for i := 0; i < rep; i++ {
-		if err := once(c, o, i == 0, seen); err != nil {
+		var err error
+		// The promptness bound is the one wall-clock oracle of this check: a run that misses it is believed only when
+		// this process's own 2 ms sleeps were woken on time while it ran (vf.LoadProbe); a disturbed miss is repeated,
+		// and a case whose every miss was disturbed is counted inconclusive, never as a pass of the bound.
+		for attempt := 0; attempt < 3; attempt++ {
+			probe := vf.StartLoadProbe()
+			err = once(c, o, i == 0 && attempt == 0, seen)
+			late := probe.Stop()
+			var lp *latePrompt
+			if err == nil || !errors.As(err, &lp) || late <= 25*time.Millisecond {
+				break
+			}
+			if attempt == 2 {
+				o.Class("inconclusive_machine_load")
+				o.Note("inconclusive", err.Error())
+				err = nil
+				break
+			}
+			time.Sleep(time.Duration(100*(attempt+1)) * time.Millisecond)
+		}
+		if err != nil {
 			return fmt.Errorf("run %d: %w", i, err)
 		}
 	}
 	return nil
 }
+
+// latePrompt is the failure of the promptness bound (see check).
+type latePrompt struct{ msg string }
+
+func (e *latePrompt) Error() string { return e.msg }
 
 const runDeadline = 20 * time.Second
 
@@ -724,8 +749,8 @@ func once(c Case, o *vf.Obs, classify bool, seen map[string]bool) error {
 	}
 	if cancelInProgress && runErr != nil {
 		if lag := runReturned.Sub(cancelAt); lag > promptBound {
-			return fmt.Errorf("Engine.Run returned %v after the cancellation, expected promptly (within %v; context-blind steps in progress: %v)",
-				lag, promptBound, describeSpans(prs, cancelAt))
+			return &latePrompt{fmt.Sprintf("Engine.Run returned %v after the cancellation, expected promptly (within %v; context-blind steps in progress: %v)",
+				lag, promptBound, describeSpans(prs, cancelAt))}
 		}
 	}
 	// ---- everything stops ----
